@@ -80,7 +80,7 @@ def expected_cost_cents(p, t, sc, rates=None):
     return int(round(total * 100))
 
 
-def observe(p, rep, outdir, job_id, scen_id=None, rates=None, fmt_by_gen=None):
+def observe(p, rep, outdir, job_id, scen_id=None, rates=None, fmt_by_gen=None, hide="", task_flags=None):
     # the scenario the report is about: the one its definition names (as written by the generator), else the first
     sc = 0
     if scen_id is not None:
@@ -99,7 +99,9 @@ def observe(p, rep, outdir, job_id, scen_id=None, rates=None, fmt_by_gen=None):
                       "start0": secs(p, st), "end0": secs(p, en),
                       "effort": int(round(float("%.2f" % float(t.get("effort", sc) or 0)) * 100)),
                       "prio": int(t.get("priority", sc) or 0), "costCents": expected_cost_cents(p, t, sc, rates)})
-    o = {"id": "%s/%s" % (job_id, rep.fullId), "def": {"columns": cols, "leafOnly": bool(rep.get("leafTasksOnly")), "fmt": fmt}, "tasks": tasks}
+    o = {"id": "%s/%s" % (job_id, rep.fullId), "def": {"columns": cols, "leafOnly": bool(rep.get("leafTasksOnly")), "fmt": fmt, "hide": hide or ""}, "tasks": tasks}
+    for t, rec in zip(p.tasks, tasks):
+        rec["flags"] = list((task_flags or {}).get(t.fullId, []))
     ctx = ReportContext(p, rep)
     ctx.push()
     try:
@@ -167,7 +169,8 @@ def main(jobs_path, out_path):
                     for rep in p.reports:
                         if type(rep).__name__ and getattr(rep, "type_spec", None) is not None and rep.type_spec.value == "taskreport":
                             out.write(json.dumps(observe(p, rep, d, job["id"], (job.get("report_scenario") or {}).get(rep.fullId), job.get("rates"),
-                                                              (job.get("report_fmt") or {}).get(rep.fullId))) + "\n")
+                                                              (job.get("report_fmt") or {}).get(rep.fullId),
+                                                              (job.get("report_hide") or {}).get(rep.fullId, ""), job.get("task_flags"))) + "\n")
             except Exception:  # noqa: BLE001
                 out.write(json.dumps({"id": job["id"], "error": traceback.format_exc()[-1200:]}) + "\n")
             finally:
